@@ -358,3 +358,60 @@ def struct_value_writers(crate, struct_path, field_names):
                     if f:
                         out.append((b["path"], st.get("sp", "?"), f, "mutable borrow"))
     return out
+
+
+BUFFERING = ("std::io::BufWriter::<W>::new", "std::io::BufWriter::<W>::with_capacity", "std::io::LineWriter::<W>::new",
+             "std::io::LineWriter::<W>::with_capacity")
+FLUSHES = ("std::io::Write::flush", "std::io::BufWriter::<W>::into_inner", "std::io::LineWriter::<W>::into_inner")
+
+
+def scan_buffered_sinks(crate):
+    """Every buffering wrapper (`BufWriter`, `LineWriter`) built around a sink must be flushed, with the flush's result propagated or
+    returned, on every path from its construction to a successful return: dropping the wrapper flushes too, but swallows the error
+    (false success). -> [(fn, site, verdict, detail)] with verdict in ok / unflushed / flush-result-lost"""
+    out = []
+    for b in bodies(crate):
+        B = M.Body(b)
+        for cbb, ct in B.calls():
+            if (M.Body.callee_decl(ct) or "") not in BUFFERING:
+                continue
+            site = _site(B, cbb)
+            dest = ct["dest"]["l"] if not ct["dest"].get("proj") else None
+            required = set()
+            lost = []
+            for fbb, ft in B.calls():
+                if (M.Body.callee_decl(ft) or "") not in FLUSHES or not ft.get("args"):
+                    continue
+                os_ = M.trace(B, ft["args"][0], M.IDENTITY_CALLS)
+                if dest is not None and not any((o.kind == "call" and o.bb == cbb) or getattr(o, "local", None) == dest for o in os_):
+                    continue
+                kinds = {k for k, _ in M.result_flow(B, fbb, ft)}
+                if kinds and kinds <= {"propagated", "mapped:propagated"}:
+                    c = M.success_continuation(B, fbb, ft)
+                    required.add(c if c is not None else fbb)
+                elif kinds and kinds <= {"returned", "mapped:returned", "propagated", "mapped:propagated"}:
+                    required.add(fbb)
+                else:
+                    lost.append((fbb, sorted(kinds)))
+            # successful returns: `_0 = Ok(..)` or `_0 = <call>` (other than the error conversion of `?`)
+            succ = []
+            for i in sorted(B.reach):
+                for st in B.blocks[i]["stmts"]:
+                    if st["k"] == "assign" and st["p"]["l"] == 0 and not st["p"].get("proj"):
+                        rv = st["rv"]
+                        if not (rv["k"] == "aggregate" and rv.get("variant") == "Err"):
+                            succ.append(i)
+                t = B.term(i)
+                if t.get("k") == "call" and t["dest"]["l"] == 0 and not t["dest"].get("proj") and not (M.Body.callee_decl(t) or "").endswith("from_residual"):
+                    succ.append(i)
+            if B.local_ty(0) == "()":
+                succ += B.return_blocks()
+            region = B.reachable_from(cbb, avoid=required)
+            escaping = [i for i in succ if i in region and i not in required]
+            if escaping and lost:
+                out.append((b["path"], site, "flush-result-lost", f"flushed but the result is {lost[0][1]}"))
+            elif escaping:
+                out.append((b["path"], site, "unflushed", "a successful return is reachable without a flush whose result is passed on"))
+            else:
+                out.append((b["path"], site, "ok", f"{len(required)} flush point(s) on every path to a successful return"))
+    return out
